@@ -61,7 +61,10 @@ Fixpoint bind_spec (kinds : list term) (args : list str) : option (list (str * s
   match kinds with
   | [] => match args with [] => Some [] | _ => None end
   | k :: ks =>
-      if kind_is k "args" && match ks with [] => true | _ => false end then
+      (* the last parameter collects the remaining arguments when its NAME is args, whether it is
+         written `args` or with a default, `{args {}}` *)
+      if (kind_is k "args" || (kind_is k "opt" && str_eqb (term_str (term_nth k 1)) (lit "args")))
+         && match ks with [] => true | _ => false end then
         Some [(lit "args", list_to_string args)]
       else
         let name := match kname k with Some n => n | None => [] end in
